@@ -65,6 +65,11 @@ def R.ofOpt {α β} (f : α → β) : Option (α × Bytes) → R β
   | some (v, rest) => R.ok 0 (f v) rest
   | none => R.fail
 
+/-- bytes charged for `make([]byte, n)`: the allocator rounds up to a size class (at most one
+    eighth more for small objects, to the next 8 KiB page for large ones; a tiny object takes a
+    16-byte block) -/
+def bufCost (n : Nat) : Nat := if n = 0 then 0 else n + n / 4 + 16
+
 def encCount (cw n : Nat) : Bytes := if cw = 0 then encVarUint n else leEnc cw n
 def decCount (cw : Nat) (bs : Bytes) : Option (Nat × Bytes) :=
   if cw = 0 then decVarUint bs else readLE cw bs
@@ -74,7 +79,7 @@ def overLimit : Option Nat → Nat → Bool
   | some l, n => decide (l < n)
 
 /-- `for i := 0; i < n; i++ { elem, err := read(r); if err != nil { return err }; xs = append(xs, elem) }` -/
-def repeatDec (f : Bytes → R Val) (ovh : Nat) : Nat → Bytes → R (List Val)
+def repeatDec {α : Type} (f : Bytes → R α) (ovh : Nat) : Nat → Bytes → R (List α)
   | 0, bs => R.ok 0 [] bs
   | n + 1, bs =>
     let r1 := f bs
@@ -129,8 +134,8 @@ mutual
       | some (n, r) =>
         if max < n then R.fail
         else match take? n r with
-          | some (a, r') => R.ok n (.bytes a) r'
-          | none => R.fail n
+          | some (a, r') => R.ok (bufCost n) (.bytes a) r'
+          | none => R.fail (bufCost n)
     | .pad1, bs => R.ok 0 .unit (bs.drop 1)
     | .fail, _ => R.fail
     | .struct fs, bs => (decodeFields fs bs).map .struct
@@ -232,7 +237,7 @@ end
 /- allocation per consumed byte (the `K` of the bound) -/
 mutual
   def dens : Ty → Nat
-    | .varBytes _ => 1
+    | .varBytes _ => 18
     | .struct fs => densFields fs
     | .list _ _ pre ovh e => pre + ovh + dens e
     | .tagged _ cs d => max (densCases cs) (dens d)
@@ -249,7 +254,7 @@ end
     one var-bytes buffer of up to `max` bytes that the input did not fill, one pre-sized slice. -/
 mutual
   def slack : Ty → Nat
-    | .varBytes max => max
+    | .varBytes max => bufCost max
     | .struct fs => slackFields fs
     | .list _ lim pre _ e => pre * (lim.getD 0) + slack e
     | .tagged _ cs d => max (slackCases cs) (slack d)
